@@ -127,6 +127,12 @@ Proof.
   intros a H1 H2 H3. exists a. split; [|auto]. unfold get, set_actors in *; cbn [actors].
   rewrite nth_error_app1; [exact H1|]. apply nth_error_Some. congruence.
 Qed.
+Lemma keeps_stop s w self t' s' o p : stop_if_parent_gone s w self t' = (s', o, p) -> keeps u t s s'.
+Proof.
+  unfold stop_if_parent_gone. destruct (get s w) as [pa|]; [|intros H; inversion H; subst; apply keeps_refl].
+  destruct (st_ge_terminating (a_st pa)); [|intros H; inversion H; subst; apply keeps_refl].
+  destruct (terminate s self t' (a_graceful pa)) as [s1 o1] eqn:E. intros H; inversion H; subst. eapply keeps_terminate; exact E.
+Qed.
 Lemma keeps_spawn s w self t' r s' o p : spawn s w self t' r = (s', o, p) -> keeps u t s s'.
 Proof.
   unfold spawn. destruct (provide s t') as [s1 inst] eqn:Ep.
@@ -135,7 +141,7 @@ Proof.
   assert (K2 : keeps u t s s2) by (eapply keeps_trans; [exact K1|apply keeps_append]).
   destruct (lookup t' (registry s2)).
   - intros H; inversion H; subst. exact K2.
-  - intros H; inversion H; subst. eapply keeps_trans; [exact K2|].
+  - intros H. eapply keeps_trans; [|eapply keeps_stop; exact H]. eapply keeps_trans; [exact K2|].
     eapply keeps_trans; [|apply keeps_deliver_sys; discriminate]. eapply keeps_trans; [|apply keeps_upd_actor; ks].
     apply keeps_same_actors. reflexivity.
 Qed.
